@@ -202,6 +202,7 @@ func TestCheck(t *testing.T) {
 	note = rec.Class
 	rec.Assume("HTTP: the scripted backend answers with JSON objects only (other bodies are not asserted); in-flight = requests that reached the backend and were not yet released by the script")
 	rec.Assume("WS deterministic part: the harness owns the transport (hook NewWSRPCClientWithTransport, build tag verif) and is the only source of events; every schedule of the generated events is exact, but preemption inside one library function (e.g. notification delivery racing Unsubscribe inside the receive loop) is not explored and not asserted")
+	rec.Assume("WS deterministic part, cancellation racing a reply: a call (or Unsubscribe) whose context is cancelled while the reply to its request is handed over - neither waited for, both orders, also under GOMAXPROCS 1/2/4 - may return its own reply or the context error; nothing else, and every later call must still receive exactly the reply to its own request")
 	rec.Assume("WS socket part: the Go scheduler/kernel own the interleaving; oracle is order-insensitive; calls or Subscribe calls that overlap a down period may either fail or succeed; the real client is never closed (closing a reconnecting firefly-common wsclient is itself racy outside pkg/rpcbackend)")
 	rec.Assume("liveness (completes instead of hanging) is a 30 s bound on an otherwise idle process; trusted base: Go race detector, net/http, gorilla/websocket, resty")
 	kHTTP := evid.NewKind(rec, "http", judgeHTTP)
